@@ -763,6 +763,10 @@ func runUniqPath(c *core.Ctx) {
 				if h := an.StaticCallee(&hc.Call); an.PrivateHelper(h) && seenOrAddHelper(h, &hc.Call, id) {
 					helperSite = hc
 				}
+				// … or behind the module's own one-implementation interface (`m.ids.Seen(id)`)
+				if h := an.InvokeDefault(&hc.Call); h != nil && seenOrAddHelper(h, &hc.Call, id) {
+					helperSite = hc
+				}
 			}
 		}
 		if (get == nil || add == nil) && helperSite == nil {
@@ -772,7 +776,11 @@ func runUniqPath(c *core.Ctx) {
 		found := ""
 		foundPol := true
 		if helperSite != nil {
-			foundPol = seenHelperFoundPol[an.StaticCallee(&helperSite.Call)]
+			hfn := an.StaticCallee(&helperSite.Call)
+			if hfn == nil {
+				hfn = an.InvokeDefault(&helperSite.Call)
+			}
+			foundPol = seenHelperFoundPol[hfn]
 			found = an.PathOf(helperSite)
 			get, add = helperSite, helperSite
 			adds = nil
